@@ -1,1 +1,229 @@
-//! Harness contracts for C20 (second half).
+//! Harness contracts for C20 (second half): thin 1:1 wiring of the registry library
+//! functions (DESIGN Appendix A) plus read-only `dump` entry points that call the
+//! library's own getters in bulk (one invocation instead of dozens).  No access
+//! control: authorization is not C20's subject.
+
+/// Accept-everything policy for the smart-account context-rule registry.
+pub mod mock_policy {
+    use soroban_sdk::{contract, contractimpl, Env, Val};
+
+    #[contract]
+    pub struct MockPolicy;
+
+    #[contractimpl]
+    impl MockPolicy {
+        pub fn can_enforce(_e: &Env, _context: Val, _authenticated_signers: Val, _context_rule: Val, _smart_account: Val) -> bool {
+            true
+        }
+        pub fn enforce(_e: &Env, _context: Val, _authenticated_signers: Val, _context_rule: Val, _smart_account: Val) {}
+        pub fn install(_e: &Env, _install_params: Val, _context_rule: Val, _smart_account: Val) {}
+        pub fn uninstall(_e: &Env, _context_rule: Val, _smart_account: Val) {}
+    }
+}
+
+/// `token_binder::*` 1:1.
+pub mod binder {
+    use soroban_sdk::{contract, contractimpl, Address, Env, Vec};
+    use stellar_tokens::rwa::utils::token_binder as tb;
+
+    #[contract]
+    pub struct Binder;
+
+    #[contractimpl]
+    impl Binder {
+        pub fn bind_token(e: &Env, token: Address) {
+            tb::bind_token(e, &token)
+        }
+        pub fn bind_tokens(e: &Env, tokens: Vec<Address>) {
+            tb::bind_tokens(e, &tokens)
+        }
+        pub fn unbind_token(e: &Env, token: Address) {
+            tb::unbind_token(e, &token)
+        }
+        pub fn linked_tokens(e: &Env) -> Vec<Address> {
+            tb::linked_tokens(e)
+        }
+        pub fn get_token_by_index(e: &Env, index: u32) -> Address {
+            tb::get_token_by_index(e, index)
+        }
+        pub fn get_token_index(e: &Env, token: Address) -> u32 {
+            tb::get_token_index(e, &token)
+        }
+        pub fn is_token_bound(e: &Env, token: Address) -> bool {
+            tb::is_token_bound(e, &token)
+        }
+        /// Bulk read: `get_token_by_index(i)` for the given indices (the caller passes only
+        /// indices below the length of `linked_tokens`) and, for the given keys,
+        /// `is_token_bound` plus `get_token_index` (u32::MAX when not bound).
+        pub fn dump(e: &Env, indices: Vec<u32>, keys: Vec<Address>) -> (Vec<Address>, Vec<(bool, u32)>) {
+            let mut by_index = Vec::new(e);
+            for i in indices.iter() {
+                by_index.push_back(tb::get_token_by_index(e, i));
+            }
+            let mut ks = Vec::new(e);
+            for k in keys.iter() {
+                let b = tb::is_token_bound(e, &k);
+                let ix = if b { tb::get_token_index(e, &k) } else { u32::MAX };
+                ks.push_back((b, ix));
+            }
+            (by_index, ks)
+        }
+    }
+}
+
+/// `doc_manager::*` 1:1.
+pub mod docs {
+    use soroban_sdk::{contract, contractimpl, BytesN, Env, String, Vec};
+    use stellar_tokens::rwa::extensions::doc_manager as dm;
+    use stellar_tokens::rwa::extensions::doc_manager::Document;
+
+    #[contract]
+    pub struct Docs;
+
+    #[contractimpl]
+    impl Docs {
+        pub fn set_document(e: &Env, name: BytesN<32>, uri: String, document_hash: BytesN<32>) {
+            dm::set_document(e, &name, &uri, &document_hash)
+        }
+        pub fn remove_document(e: &Env, name: BytesN<32>) {
+            dm::remove_document(e, &name)
+        }
+        pub fn get_document(e: &Env, name: BytesN<32>) -> Document {
+            dm::get_document(e, &name)
+        }
+        pub fn get_document_by_index(e: &Env, index: u32) -> (BytesN<32>, Document) {
+            dm::get_document_by_index(e, index)
+        }
+        pub fn get_document_count(e: &Env) -> u32 {
+            dm::get_document_count(e)
+        }
+        pub fn get_documents(e: &Env, bucket_index: u32) -> Vec<(BytesN<32>, Document)> {
+            dm::get_documents(e, bucket_index)
+        }
+        /// Bulk read: `get_document(name)` for names the caller expects to be attached.
+        pub fn get_docs(e: &Env, names: Vec<BytesN<32>>) -> Vec<Document> {
+            let mut out = Vec::new(e);
+            for n in names.iter() {
+                out.push_back(dm::get_document(e, &n));
+            }
+            out
+        }
+        /// Bulk read: count, `get_document_by_index(i)` for the given indices (all below the
+        /// count the caller expects), `get_documents(b)` for the given buckets.
+        pub fn dump(e: &Env, indices: Vec<u32>, buckets: Vec<u32>) -> (u32, Vec<(BytesN<32>, Document)>, Vec<Vec<(BytesN<32>, Document)>>) {
+            let count = dm::get_document_count(e);
+            let mut by_index = Vec::new(e);
+            for i in indices.iter() {
+                if i < count {
+                    by_index.push_back(dm::get_document_by_index(e, i));
+                }
+            }
+            let mut bs = Vec::new(e);
+            for b in buckets.iter() {
+                bs.push_back(dm::get_documents(e, b));
+            }
+            (count, by_index, bs)
+        }
+    }
+}
+
+/// `compliance::storage::*` 1:1 (+ `bind_token` so that the state-changing hooks can run).
+pub mod compliance_reg {
+    use soroban_sdk::{contract, contractimpl, Address, Env, Vec};
+    use stellar_tokens::rwa::compliance::{storage as cs, ComplianceHook};
+    use stellar_tokens::rwa::utils::token_binder as tb;
+
+    #[contract]
+    pub struct ComplianceReg;
+
+    #[contractimpl]
+    impl ComplianceReg {
+        pub fn add_module_to(e: &Env, hook: ComplianceHook, module: Address) {
+            cs::add_module_to(e, hook, module)
+        }
+        pub fn remove_module_from(e: &Env, hook: ComplianceHook, module: Address) {
+            cs::remove_module_from(e, hook, module)
+        }
+        pub fn get_modules_for_hook(e: &Env, hook: ComplianceHook) -> Vec<Address> {
+            cs::get_modules_for_hook(e, hook)
+        }
+        pub fn is_module_registered(e: &Env, hook: ComplianceHook, module: Address) -> bool {
+            cs::is_module_registered(e, hook, module)
+        }
+        pub fn bind_token(e: &Env, token: Address) {
+            tb::bind_token(e, &token)
+        }
+        pub fn transferred(e: &Env, from: Address, to: Address, amount: i128, token: Address) {
+            cs::transferred(e, from, to, amount, token)
+        }
+        pub fn created(e: &Env, to: Address, amount: i128, token: Address) {
+            cs::created(e, to, amount, token)
+        }
+        pub fn destroyed(e: &Env, from: Address, amount: i128, token: Address) {
+            cs::destroyed(e, from, amount, token)
+        }
+        pub fn can_transfer(e: &Env, from: Address, to: Address, amount: i128, token: Address) -> bool {
+            cs::can_transfer(e, from, to, amount, token)
+        }
+        pub fn can_create(e: &Env, to: Address, amount: i128, token: Address) -> bool {
+            cs::can_create(e, to, amount, token)
+        }
+        /// Bulk read: per hook (in the order given) the module list and `is_module_registered`
+        /// for every given module.
+        pub fn dump(e: &Env, hooks: Vec<ComplianceHook>, modules: Vec<Address>) -> Vec<(Vec<Address>, Vec<bool>)> {
+            let mut out = Vec::new(e);
+            for h in hooks.iter() {
+                let list = cs::get_modules_for_hook(e, h.clone());
+                let mut reg = Vec::new(e);
+                for m in modules.iter() {
+                    reg.push_back(cs::is_module_registered(e, h.clone(), m));
+                }
+                out.push_back((list, reg));
+            }
+            out
+        }
+    }
+}
+
+/// Trivial compliance module: accepts everything, counts the calls per hook.
+pub mod mock_module {
+    use soroban_sdk::{contract, contractimpl, symbol_short, Address, Env, String, Symbol, Vec};
+    const CALLS: Symbol = symbol_short!("CALLS");
+
+    #[contract]
+    pub struct MockModule;
+
+    fn bump(e: &Env, i: u32) {
+        let mut v: Vec<u32> = e.storage().instance().get(&CALLS).unwrap_or_else(|| Vec::from_array(e, [0u32; 5]));
+        v.set(i, v.get(i).unwrap_or(0) + 1);
+        e.storage().instance().set(&CALLS, &v);
+    }
+
+    #[contractimpl]
+    impl MockModule {
+        pub fn on_transfer(e: &Env, _from: Address, _to: Address, _amount: i128, _token: Address) {
+            bump(e, 0)
+        }
+        pub fn on_created(e: &Env, _to: Address, _amount: i128, _token: Address) {
+            bump(e, 1)
+        }
+        pub fn on_destroyed(e: &Env, _from: Address, _amount: i128, _token: Address) {
+            bump(e, 2)
+        }
+        pub fn can_transfer(e: &Env, _from: Address, _to: Address, _amount: i128, _token: Address) -> bool {
+            bump(e, 3);
+            true
+        }
+        pub fn can_create(e: &Env, _to: Address, _amount: i128, _token: Address) -> bool {
+            bump(e, 4);
+            true
+        }
+        pub fn name(e: &Env) -> String {
+            String::from_str(e, "mock")
+        }
+        /// calls seen per hook: [Transferred, Created, Destroyed, CanTransfer, CanCreate]
+        pub fn calls(e: &Env) -> Vec<u32> {
+            e.storage().instance().get(&CALLS).unwrap_or_else(|| Vec::from_array(e, [0u32; 5]))
+        }
+    }
+}
